@@ -53,6 +53,9 @@ def effects_mut(prog, f, nfields):
             mm = match(it, ("call", "*::iter_mut", "_", (("field", SELF, "?i"),)))
             if mm is not None:
                 return mm["?i"], "each"
+            mm = match(strip_refs(it), ("field", SELF, "?i"))      # `for v in &mut self.field`
+            if mm is not None:
+                return mm["?i"], "each"
         for n in walk(t):
             mm = match(n, ("field", SELF, "?i"))
             if mm is not None:
